@@ -73,6 +73,23 @@ def ruleCp : OpKind → Except RuleErr Bool
     | .ok x => .ok (if x && fg then !(ms.any (fun m => !m)) else true)
   | _ => .ok false
 
+/-! ### the extension kernels of the xDMA -/
+
+/-- signature of a kernel op: its name and its operand types followed by its result types
+(what `SupportedKernel.is_same_kernel` compares: `isinstance(op, kernel_type)` and the type list) -/
+structure KSig where
+  name : String
+  tys : List String
+  deriving DecidableEq, Repr
+
+/-- `[ext.supported_kernel for ext in XDMA_EXT_SET if ext.supported_kernel is not None]`, in that order:
+RescaleDownExtension, RescaleUpExtension, AddExtension (MaxPool, MemSet, Transpose, AddLong have none) -/
+def xdmaExtKernels : List KSig :=
+  [⟨"kernel.rescale", ["i32", "i8"]⟩, ⟨"kernel.rescale", ["i8", "i32"]⟩, ⟨"kernel.add", ["i32", "i32", "i32"]⟩]
+
+/-- the list `ms` of a streaming region whose kernel has signature `k` -/
+def matchesOf (k : KSig) : List Bool := xdmaExtKernels.map (fun e => decide (e = k))
+
 /-- who should execute an op according to the property (independent of the two rules): copies and xDMA
 streaming regions whose kernel an extension provides are data movement; `linalg.generic` and every
 other streaming region (it names an accelerator) are compute; the rest runs everywhere -/
